@@ -182,7 +182,7 @@ def main(argv):
     if not any("harness no longer builds" in p for p in build_problems):
         lines, verdicts, run_problems = run_correspondence(pid, tier, seed, replay)
     # classify
-    mismatches, badlines, tags = [], [], {}
+    mismatches, badlines, differs, tags = [], [], [], {}
     nontriv = set(); distinct = set()
     nt_re = re.compile(cfg["nontrivial"])
     for l, v in zip(lines, verdicts):
@@ -193,6 +193,7 @@ def main(argv):
             distinct.add(req)
             if nt_re.search(tag): nontriv.add(req)
         elif v.startswith("MISMATCH"): mismatches.append((l, v))
+        elif v.startswith("DIFFERS"): differs.append((l, v))
         else: badlines.append((l, v))
     known = [k for k in load_known() if k["property"] == pid]
     new_mis = []
@@ -219,6 +220,9 @@ def main(argv):
                 f.write("# " + v[:1500].replace("\n", " ") + "\n")
                 f.write(l.split("\t=>\t")[0] + "\n")
         violation = (path, "")
+    if differs and violation is None:
+        run_problems.append("correspondence no longer checks on %d inputs where the property itself still holds (implementation and model both reject, with different error kinds), e.g. %s  -> %s" % (len(differs), differs[0][0].split("\t=>\t")[0][:200], differs[0][1][:120]))
+    if violation is not None: pass
     elif proof_problems or build_problems or run_problems:
         # an obligation or the correspondence no longer checks: search the implementation for a concrete failing input with
         # further seeds (and the thorough generators where they are quick) before reporting without one
@@ -231,7 +235,7 @@ def main(argv):
                     l2, v2, _ = run_correspondence(pid, t2, s2)
                 except Exception:
                     break
-                bad2 = [(l, v) for l, v in zip(l2, v2) if not v.startswith("ok\t") and not any(re.search(k["match"], l) for k in known)]
+                bad2 = [(l, v) for l, v in zip(l2, v2) if not v.startswith("ok\t") and not v.startswith("DIFFERS") and not any(re.search(k["match"], l) for k in known)]
                 if bad2:
                     found = sorted(bad2, key=lambda lv: len(lv[0]))[:5]; break
         if found:
@@ -267,7 +271,7 @@ def main(argv):
             "evaluations": len(lines), "distinct_cases": len(distinct), "distinct_nontrivial": len(nontriv),
             "rule": cfg["rule"], "exhaustive": bool(cfg.get("exhaustive", False)),
             "branch_histogram": dict(sorted(tags.items())),
-            "mismatches": len(mismatches), "known_findings_hit": sorted(known_hit),
+            "mismatches": len(mismatches), "model_only_disagreements": len(differs), "known_findings_hit": sorted(known_hit),
             "source_drift": drift,
             "samples": samples,
             "correspondence_only_clauses": cfg.get("correspondence_only", []),
